@@ -221,7 +221,7 @@ var singleKinds = []string{"mkdir", "mkdirall", "openfile", "create", "writefile
 var doubleKinds = []string{"rename", "symlink"}
 
 // opsWithNoOtherEINVAL: for a valid name these can only fail with EINVAL if the name was (wrongly) refused.
-var noOtherEINVAL = map[string]bool{"stat": true, "open": true, "mkdir": true, "writefile": true, "readfile": true, "remove": true}
+var noOtherEINVAL = map[string]bool{"stat": true, "open": true, "mkdir": true, "writefile": true, "readfile": true, "remove": true, "removeall": true}
 
 // check runs one case; returns (sig, msg).
 func check(c Case) (string, string) {
@@ -453,12 +453,17 @@ func genName(t *rapid.T, tr gen.Tree, kind string) (name string, class string) {
 	case mode < 8:
 		return rapid.StringOfN(rapid.RuneFrom([]rune{'a', 'b', '/', '.', '\\', ':', 'é', ' '}), 0, 8, -1).Draw(t, "fuzzname"), "fuzzed"
 	default:
-		odd := rapid.SampledFrom([]string{`a\b`, `a:b`, `c:\x`, ` a`, `.x`, `..x`, `x..`, `é`, `a b`, `b\`, `:`, `...`}).Draw(t, "odd")
+		// ("." is a valid name too: the root itself)
+		odd := rapid.SampledFrom([]string{`a\b`, `a:b`, `c:\x`, ` a`, `.x`, `..x`, `x..`, `é`, `a b`, `b\`, `:`, `...`, `.`, `.`, `.`, `.`, `.`}).Draw(t, "odd")
 		return odd, "odd-valid"
 	}
 }
 
 func genProbe(t *rapid.T, tr gen.Tree, kind string) (ops.Op, int, string) {
+	if kind != "sublenient" && rapid.IntRange(0, 24).Draw(t, "rootremoval") == 0 {
+		// the root by its (valid) name, handed to the operation that walks whatever it is given
+		return ops.Op{K: "removeall", P: "."}, 1, "odd-valid"
+	}
 	name, class := genName(t, tr, kind)
 	if kind != "sublenient" && rapid.IntRange(0, 4).Draw(t, "two") == 0 {
 		k := rapid.SampledFrom(doubleKinds).Draw(t, "dkind")
